@@ -360,4 +360,10 @@ theorem reencode_trivial (gmax pver : Nat) (t : MsgType) (m0 : Msg) (bs : Bytes)
     refine ⟨[], rest, ?_, rfl, hwf.mpr (by omega)⟩
     rw [henc, if_neg hp]
 
+theorem bytes4_eq_put32le (l : Bytes) (h : l.length = 4) : ∃ n, n < 2^32 ∧ l = put32le n := by
+  match l, h with
+  | [a, b, c, d], _ =>
+    have := get32le_inv (bs := [a, b, c, d]) (n := a.toNat + 2^8 * b.toNat + 2^16 * c.toNat + 2^24 * d.toNat) (r := []) rfl
+    exact ⟨_, this.2, by simpa using this.1⟩
+
 end BHS.Wire
